@@ -292,6 +292,50 @@ def run (fresh : Nat → U) (pre : List (PreItem N U)) (c : Container N U) :
   | .error e => .error e
   | .ok st => runOccs fresh st 0 (occsOf c)
 
+/-! ### a container that GROWS between two validations
+
+`validate()` / `render()` may be called on a container, more content added through the public
+API (`add_flow`, `FlowContainer.add_node`, `BaseNode.add_action`, `SwitchRouterNode.add_choice`,
+`Campaign.add_event`, `add_campaign`, `add_trigger`) and the container validated again.  Nothing
+is cached between two calls of `update_global_uuids`: it walks the object graph as it stands.
+The objects that were there at the previous validation carry what `assign_global_uuids` gave
+them (the dictionary's value), the added ones what they were constructed with; `container.groups`
+is the group list the previous validation left; `uuid_dict` keeps its state, `add_flow` records
+on it at once.
+
+`kept u = true` marks the ids standing for "this object was validated before" in the description
+of the grown container (a marker, never a uuid of the code). -/
+
+/-- the uuid a reference object of the grown container carries when validation starts -/
+def Ref.settle (kept : U → Bool) (st : St N U) (k : Kind) (r : Ref N U) : Ref N U :=
+  match r.given with
+  | some u => if kept u then r.assign st k else r
+  | none => r
+
+/-- the grown container as it stands when `validate()` is called again: `groups` is what the
+    previous validation left, flows keep their own uuid, every reference marked `kept` carries
+    the uuid assigned from the dictionary `prev.st` -/
+def Container.settle (kept : U → Bool) (prev : Out N U) (c : Container N U) : Container N U where
+  groups := prev.groups.map (fun p => ⟨p.1, p.2⟩)
+  flows := c.flows.map (fun f => { f with nodes := f.nodes.map (fun nd =>
+    { actions := nd.actions.map (fun a => (a.1, a.2.settle kept prev.st a.1))
+      cases := nd.cases.map (fun r => r.settle kept prev.st .group) }) })
+  campaigns := c.campaigns.map (fun cp =>
+    { events := cp.events.map (fun e => { e with flow := e.flow.settle kept prev.st .flow })
+      group := cp.group.settle kept prev.st .group })
+  triggers := c.triggers.map (fun t =>
+    { flow := t.flow.settle kept prev.st .flow
+      groups := t.groups.map (fun r => r.settle kept prev.st .group)
+      exclude := t.exclude.map (fun r => r.settle kept prev.st .group) })
+
+/-- one more stage of a history: the records made while adding (`add_flow`) on the dictionary
+    left by the previous validation, then `validate()` on the grown container -/
+def runStage (fresh : Nat → U) (kept : U → Bool) (prev : Out N U) (pre : List (PreItem N U))
+    (c : Container N U) : Except (Err N U) (Out N U) :=
+  match recordPre prev.st pre with
+  | .error e => .error e
+  | .ok st => runOccs fresh st prev.next (occsOf (c.settle kept prev))
+
 /-- The call sequences of the source that `occsOf`, `recordOcc`, `runOccs` transcribe
     (T1 regenerates them from /repo on every run; `Props/C06.lean` `tables_agree`). -/
 def srcUpdateSteps : List String :=
